@@ -904,6 +904,17 @@ func (in *interp) restoreOne(step int, op Op) (err error) {
 	if err := in.settle(step); err != nil {
 		return err
 	}
+	if len(op.Val) > 0 {
+		// the same checkpoint as a database with a long life behind it would have
+		// written it: table numbers about to outgrow the six digits of their names
+		aged, aerr := ageStorage(fs, ck.handle.URI)
+		if aerr != nil {
+			return hx.Errf("step %d: ageing the storage: %v", step, aerr)
+		}
+		if aged {
+			in.c.Label("restored-with-table-numbers-around-1000000")
+		}
+	}
 	db, err := in.restoreFrom(step, "crash-restore now", fs, ck, op.On)
 	if err != nil {
 		return err
